@@ -237,6 +237,36 @@ class Reporter:
         return time.time() - self.t0
 
 
+def _scrub(v, depth=0):
+    """results travel through a pipe: solver terms and symbolic values (whose pickling can block inside the z3 library
+    of a forked child) are replaced by their text"""
+    import z3 as _z3
+    if isinstance(v, Tally):
+        return v
+    if isinstance(v, (_z3.AstRef, _z3.ModelRef, _z3.FuncDeclRef)) or type(v).__module__.startswith("vf.pysym"):
+        try:
+            return "<%s %s>" % (type(v).__name__, str(getattr(v, "term", v))[:80])
+        except Exception:
+            return "<%s>" % type(v).__name__
+    if depth > 8:
+        return v
+    if isinstance(v, dict):
+        return {k: _scrub(x, depth + 1) for k, x in v.items()}
+    if isinstance(v, list):
+        return [_scrub(x, depth + 1) for x in v]
+    if isinstance(v, tuple):
+        return tuple(_scrub(x, depth + 1) for x in v)
+    return v
+
+
+class _Scrubbed:
+    def __init__(self, fn):
+        self.fn = fn
+
+    def __call__(self, x):
+        return _scrub(self.fn(x))
+
+
 def pmap(fn, items, procs=None, chunksize=1):
     """Parallel map with fork; results in order.  fn must be a module-level function."""
     import multiprocessing as mp
@@ -245,7 +275,7 @@ def pmap(fn, items, procs=None, chunksize=1):
         return [fn(x) for x in items]
     ctx = mp.get_context("fork")
     with ctx.Pool(procs) as pool:
-        return pool.map(fn, items, chunksize=chunksize)
+        return pool.map(_Scrubbed(fn), items, chunksize=chunksize)
 
 
 def check_portfolio(tally, constraints, plan=((None, 20000), ("qfnra-nlsat", 60000), (None, 120000)), label=None,
